@@ -22,6 +22,18 @@ def rules(repo):
     return out
 
 
+def ignore_chars(repo):
+    """ the module-level t_ignore string of the lexer module, or None """
+    path = os.path.join(repo, 'hotxlfp', 'grammarparser', 'lexer.py')
+    tree = ast.parse(open(path, encoding='utf-8').read())
+    for n in tree.body:
+        if isinstance(n, ast.Assign) and any(isinstance(t, ast.Name) and t.id == 't_ignore' for t in n.targets):
+            if isinstance(n.value, ast.Constant) and isinstance(n.value.value, str):
+                return n.value.value
+            return ''
+    return None
+
+
 def lang(rule):
     body, la = lexre.token_language(rule['pattern'])
     return body, la
@@ -88,11 +100,15 @@ def obligations(repo):
 
     def before(a, b):
         add('L1.order.%s<%s' % (a, b), a in order and b in order and order.index(a) < order.index(b), 'rule order %r' % (order,))
-    add('L1.whitespace-first', order[0] == 'WHITESPACE', order[0])
+    # whitespace is discarded either by a rule that returns no token (it then has to come first) or by PLY's t_ignore character set
+    ignore = ignore_chars(repo)
+    has_ws_rule = 'WHITESPACE' in by
+    add('L1.whitespace-first', (order[0] == 'WHITESPACE') if has_ws_rule else bool(ignore), order[0] if has_ws_rule else 't_ignore = %r' % (ignore,))
     for r in rs:
         add('L0.no-nested-unbounded-repeat.%s' % r['name'], not nested_unbounded_repeat(r['pattern']),
             'an unbounded repeat inside an unbounded repeat: exponential backtracking on non-matching input (%s)' % r['pattern'])
-    add('L2.whitespace-discarded', not by['WHITESPACE']['returns'], 't_WHITESPACE returns a token')
+    add('L2.whitespace-discarded', (not by['WHITESPACE']['returns']) if has_ws_rule else bool(ignore),
+        't_WHITESPACE returns a token' if has_ws_rule else 'no rule and no t_ignore set discards whitespace')
     for a, b in (('STRING', 'QUOTATION'), ('STRING', 'APOSTROPHE'), ('FUNCTION', 'ABSOLUTE_CELL'), ('FUNCTION', 'RELATIVE_CELL'),
                  ('FUNCTION', 'VARIABLE'), ('ABSOLUTE_CELL', 'MIXED_CELL'), ('MIXED_CELL', 'RELATIVE_CELL'), ('RELATIVE_CELL', 'VARIABLE'),
                  ('VARIABLE', 'NUMBER'), ('NOTEQUAL', 'LESS'), ('NOTEQUAL', 'GREATER'), ('GREATEREQ', 'GREATER'), ('LESSEQ', 'LESS'),
@@ -105,8 +121,12 @@ def obligations(repo):
         except lexre.Unsupported as u:
             add('regex.supported.%s' % r['name'], False, 'pattern outside the modelled subset: %s' % u)
     ws = lexre.union(lexre.lit(c) for c in (' ', '\t', '\n', '\r'))
-    ok, w = lexre.included(z3.Plus(ws), langs['WHITESPACE'][0])
-    add('L2.blank-tab-newline-in-WHITESPACE', ok is True, 'witness %r' % (w,))
+    if has_ws_rule and 'WHITESPACE' in langs:
+        ok, w = lexre.included(z3.Plus(ws), langs['WHITESPACE'][0])
+        add('L2.blank-tab-newline-in-WHITESPACE', ok is True, 'witness %r' % (w,))
+    else:
+        missing = [c for c in (' ', '\t', '\n', '\r') if c not in (ignore or '')]
+        add('L2.blank-tab-newline-in-WHITESPACE', not missing, 'not discarded between tokens: %r (t_ignore = %r, no WHITESPACE rule)' % (missing, ignore))
     anyws = lexre.category(lexre.C.CATEGORY_SPACE)
     for name, (body, la) in langs.items():
         if name in ('WHITESPACE', 'STRING', 'SINGLESPACE'):
